@@ -228,6 +228,8 @@ type State struct {
 	track    int // heap object id whose reachable accesses are recorded (C10); 0 = off
 	trackInfo *trackInfo
 	jsGlobals map[string]Value
+	steps     int64
+	selForks  int
 	writes   []*StrV
 }
 
@@ -254,6 +256,8 @@ func (s *State) fork() *State {
 		track:   s.track,
 		trackInfo: s.trackInfo,
 		jsGlobals: s.jsGlobals,
+		steps:     s.steps,
+		selForks:  s.selForks,
 		access:  append([]AccessRec(nil), s.access...),
 		writes:  append([]*StrV(nil), s.writes...),
 	}
